@@ -134,17 +134,33 @@ def _exec(case, log, stats):
             start, end, out = record[(tid, idx)]
             stats.inc("validate_ops")
             name, value = op["name"], op["value"]
+            # linearizability: the checker consulted is the initial one or a
+            # registration that had started, provided no *other* registration on
+            # the name lies entirely between it and this validation
+            writes = [(-1, -1, None)] + [(rs, re_, pred) for rs, re_, pred in regs.get(name, [])]
             possible = set()
-            if name in PRISTINE_REGISTER:
-                try:
-                    possible.add("accept" if PRISTINE_REGISTER[name](value) else "reject")
-                except Exception:  # pylint: disable=broad-except
-                    continue
-            else:
-                possible.add("accept")
-            for rstart, _, pred in regs.get(name, []):
-                if rstart <= end:
+            unknown = False
+            for wstart, wend, pred in writes:
+                if wstart > end:
+                    continue  # began after the validation had finished
+                if any(
+                    ostart > wend and oend < start
+                    for ostart, oend, opred in writes
+                    if (ostart, oend) != (wstart, wend)
+                ):
+                    continue  # certainly overwritten before the validation began
+                if pred is None:
+                    if name in PRISTINE_REGISTER:
+                        try:
+                            possible.add("accept" if PRISTINE_REGISTER[name](value) else "reject")
+                        except Exception:  # pylint: disable=broad-except
+                            unknown = True
+                    else:
+                        possible.add("accept")
+                else:
                     possible.add("accept" if evaluate(pred, value) else "reject")
+            if unknown:
+                continue
             if out not in possible:
                 return {
                     "invariant": "concurrent_verdict_unexplained",
